@@ -25,6 +25,7 @@ type PropertyDef struct {
 	Bounded     []string `json:"bounded"`
 	Replay      string   `json:"replay_family"`
 	Includes    []string `json:"includes"` // other property files whose funcs/lemmas are part of this one
+	Structural  []string `json:"structural"` // names of structural checks (contract files: //@ structural NAME: ...)
 }
 
 type KnownFinding struct {
@@ -56,6 +57,7 @@ func loadProperty(verifDir, id string, seen map[string]bool) (*PropertyDef, erro
 		}
 		pd.Funcs = append(pd.Funcs, sub.Funcs...)
 		pd.Lemmas = append(pd.Lemmas, sub.Lemmas...)
+		pd.Structural = append(pd.Structural, sub.Structural...)
 		pd.Packages = append(pd.Packages, sub.Packages...)
 		pd.Assumptions = append(pd.Assumptions, sub.Assumptions...)
 	}
@@ -126,6 +128,9 @@ func RunProperty(pd *PropertyDef, repoDir, verifDir string, timeoutS, seed int, 
 	}
 	for _, l := range pd.Lemmas {
 		e.VerifyLemma(l)
+	}
+	for _, sname := range pd.Structural {
+		e.VerifyStructural(sname)
 	}
 	e.checkConstGlobals()
 	if len(e.Obls) == 0 {
